@@ -488,8 +488,20 @@ impl<'a> Gen<'a> {
                 }
                 if self.rng.chance(1, 8) {
                     f.skip = true;
-                    // skipped fields are never parsed: keep them simple
-                    f.multiple = false;
+                    // skipped fields are never parsed; `multiple` may still stand next to `skip`
+                    if self.rng.coin() {
+                        f.multiple = false;
+                    }
+                }
+                // a custom converter on an optional field (absent, the field is still `None`)
+                if let Ty::Opt(inner) = &f.ty {
+                    if matches!(**inner, Ty::Sc(Sc::I64) | Ty::Sc(Sc::U8) | Ty::Sc(Sc::Str)) && !f.skip {
+                        match self.rng.below(6) {
+                            0 => f.with = With::Path,
+                            1 => f.with = With::Closure,
+                            _ => {}
+                        }
+                    }
                 }
                 if transformable && !f.skip {
                     match self.rng.below(10) {
@@ -942,6 +954,15 @@ impl<'a> Gen<'a> {
         } else {
             vec!["any", "named", "tuple", "newtype", "unit"]
         };
+        // every word of both kinds, without the top-level `any`: everything but a union is admitted
+        if tr == Trait::DeriveInput && self.rng.chance(1, 6) {
+            let full: &[&str] = match self.rng.below(3) {
+                0 => &["struct_any", "enum_any"],
+                1 => &["struct_named", "struct_tuple", "struct_unit", "enum_named", "enum_tuple", "enum_unit"],
+                _ => &["struct_any", "enum_named", "enum_tuple", "enum_newtype", "enum_unit"],
+            };
+            return full.iter().map(|s| s.to_string()).collect();
+        }
         let n = self.rng.range(1, 3);
         let mut v = all.clone();
         self.rng.shuffle(&mut v);
